@@ -77,7 +77,7 @@ func replayC05(c *Ctx, rule string, raw json.RawMessage) {
 func runC05(c *Ctx, phase string) {
 	u := c.U
 	L := c.Pick(4, 5)
-	nLong := c.Pick(20000, 400000)
+	nLong := c.Pick(120000, 600000)
 	c.Meta(fmt.Sprintf("every sequence over the 20 token kinds {ACT, LONLY, LLATER, SONLY, SLATER, DEP, FOLD, EXC, UNK, LREF, DREF, ':', '(', ')', AND, OR, WITH, '+', ' +', lower-case operator} "+
 		"up to length %d, each kind freshly instantiated from the shipped lists (random letter case for listed ids one time in four), rendered loose (one space) and tight (no space around parentheses and ':'); "+
 		"plus generator-valid expressions of 3-40 tokens and each of them with one token deleted, inserted or replaced. distinct = distinct rendered string; non-trivial = judged (not in the unspecified class)", L),
